@@ -1,15 +1,17 @@
 package server
 
-// C13 harness: one invocation of the /prove handler, with everything that exists before the invocation (handler, proving system,
-// package-level state) marked shared. The engine extracts the invocation's accesses to shared state; two invocations are then
-// interleaved in SMT (timestamps, mutex exclusion) to look for a conflicting pair.
+// C13 harness: invocations of the /prove handler on one shared handler value. Everything that exists before an invocation
+// (handler, proving system, package-level state, and whatever earlier invocations left reachable) is shared with it.
+// The engine extracts each invocation's accesses to shared state with their locksets; pairs of invocations are interleaved in SMT.
 import (
 	"net/http"
 
 	"worldcoin/gnark-mbu/prover"
 )
 
-func VerifHarness_C13_Invocation() {
+var verifH proveHandler
+
+func VerifHarness_C13_Setup() {
 	mode := InsertionMode
 	if verifNondetBool("deletion") {
 		mode = DeletionMode
@@ -17,7 +19,11 @@ func VerifHarness_C13_Invocation() {
 	ps := &prover.ProvingSystem{TreeDepth: verifNondetU32("depth"), BatchSize: verifNondetU32("batch"),
 		ProvingKey: verifStubPK("sys"), VerifyingKey: verifStubVK("sys"), ConstraintSystem: verifStubCS("sys")}
 	verifAssume(ps.TreeDepth <= 1 && ps.BatchSize <= 1)
-	h := proveHandler{provingSystem: ps, mode: mode}
+	verifH = proveHandler{provingSystem: ps, mode: mode}
+}
+
+func VerifHarness_C13_Invoke() {
+	h := verifH
 	verifBeginInvocation()
 	w := verifRecorder()
 	r := &http.Request{Method: verifNondetString("method"), Body: verifBody()}
